@@ -125,7 +125,8 @@ def h_signature(ctx, cfg):
         ex = ChainExec(chain, gshape, real=b['obj'])
     for route, get in (('sigtools', sigtools.signature), ('inspect', inspect.signature)):
         try:
-            R = get(b['obj'])
+            with sym.concrete():
+                R = get(b['obj'])
         except Exception as e:
             ctx.require('retrieval-does-not-raise[%s]' % route, False, lambda: dict(exc=repr(e)))
             continue
@@ -140,13 +141,15 @@ def h_signature(ctx, cfg):
             continue
         ctx.nontrivial = True
         ctx.refute('sound[%s]' % route, qn, And(Acc(rs), nc, Not(ex)), info)
-    ws = list(wrappers.wrappers(b['unbound']))
+    with sym.concrete():
+        ws = list(wrappers.wrappers(b['unbound']))
     ctx.require('wrappers-lists-outermost-first', len(ws) == len(b['decos']) and all(a is c for a, c in zip(ws, b['decos'])),
                 lambda: dict(got=repr(ws)))
     if placement == 'method' and not any(own == 'pok' for k, own in layers):
         # (with a positional own parameter the decorated function's self is not the first parameter)
-        full = sigtools.signature(b['unbound'])
-        bound_sig = sigtools.signature(b['obj'])
+        with sym.concrete():
+            full = sigtools.signature(b['unbound'])
+            bound_sig = sigtools.signature(b['obj'])
         ctx.require('binding-removes-exactly-the-first-parameter',
                     [(p.name, int(p.kind)) for p in bound_sig.parameters.values()] ==
                     [(p.name, int(p.kind)) for p in full.parameters.values()][1:],
@@ -250,11 +253,13 @@ def h_combination(ctx, cfg):
     if not cons:
         return
     try:
-        R = sigtools.signature(comb)
+        with sym.concrete():
+            R = sigtools.signature(comb)
     except ValueError:
         ctx.count('combination-signature-raises')
         return
-    R2 = inspect.signature(comb)
+    with sym.concrete():
+        R2 = inspect.signature(comb)
     with sym.notrace():
         first = Shape(pok=[('arg', False)], va='args', vk='kwargs')
         allacc = _AllAccept(shapes, comb)
@@ -264,7 +269,8 @@ def h_combination(ctx, cfg):
             rs = shape_of(Rx)
             qn = all_names(shapes + [rs, first])
             nc = NonColl(rs.kwable, qn)
-        ctx.refute('combination-signature-sound[%s]' % route, qn, And(Acc(rs), nc, Not(allacc)), info)
+        # (the first argument is handed on positionally: calls naming it by keyword are not modelled)
+        ctx.refute('combination-signature-sound[%s]' % route, qn, And(Acc(rs), nc, KwDisjoint(['arg']), Not(allacc)), info)
 
 
 def plan(tier):
